@@ -62,6 +62,10 @@ func init() {
 				p.PSlowPlugin = 35
 				p.PNoWait = 80
 			}
+			if c.Index%4 == 1 {
+				// a reconcile pass over a multi-target transaction is cut short between two of its store writes
+				p.PStoreFault = 20
+			}
 			return p
 		})
 	s2Check("C02", "exploration", "runtime monitoring: online order monitor over decorated store / device calls (merge order, push order, push-after-merge, index monotonicity)",
